@@ -4,7 +4,9 @@ apply each mutant listed by bin/mutate to a scratch copy of /repo, keep those
 that still build and pass the unedited test suite, run the checker on them and
 list the ones it is silent on (candidates for clauses no rule asks about;
 many are equivalent or outside the properties).
-  tools/mutation_run.py /tmp/mutants.tsv /tmp/mut  > report.tsv
+  tools/mutation_run.py mutants.tsv /var/tmp/fsmut  > report.tsv
+The tests of a mutant run inside tools/jail.sh (mutated code running as root has
+removed scratch data of other tools under /tmp before).
 """
 import json, os, shutil, subprocess, sys, concurrent.futures, threading
 VERIF = os.path.dirname(os.path.dirname(os.path.abspath(__file__)))
@@ -16,13 +18,34 @@ if only:
     muts = [m for m in muts if only in m[0]]
 known = json.load(open(os.path.join(VERIF, "known_findings.json")))["findings"]
 NW = int(os.environ.get("NW", "10"))
+# the pristine sources are read once, so that a patch applied to /repo for a
+# moment by another tool (seed intake) cannot leak into a mutant
+SRC = {rel: open(os.path.join("/repo", rel), "rb").read() for rel in sorted({m[1] for m in muts})}
 os.makedirs(base, exist_ok=True)
 local = threading.local()
 free = list(range(NW))
 lock = threading.Lock()
+def listing(d):
+    out = {}
+    for root, dirs, files in os.walk(d):
+        for f in files:
+            p = os.path.join(root, f)
+            try:
+                out[os.path.relpath(p, d)] = os.path.getsize(p)
+            except OSError:
+                pass
+    return out
+PRISTINE = None
 def wdir(i):
+    # (a mutant may have damaged its own work directory - a RemoveAll of a
+    # relative path runs in it - so it is compared with /repo before each use)
+    global PRISTINE
     d = os.path.join(base, "w%d" % i)
-    if not os.path.isdir(d):
+    with lock:
+        if PRISTINE is None:
+            PRISTINE = {k: v for k, v in listing("/repo").items() if not k.startswith(".git" + os.sep) and k != ".git"}
+    if not os.path.isdir(d) or listing(d) != PRISTINE:
+        shutil.rmtree(d, ignore_errors=True)
         shutil.copytree("/repo", d, ignore=shutil.ignore_patterns(".git"), symlinks=True)
     return d
 def run(cmd, cwd, timeout):
@@ -37,7 +60,7 @@ def one(m):
         i = free.pop()
     try:
         d = wdir(i)
-        src = open(os.path.join("/repo", rel), "rb").read()
+        src = SRC[rel]
         new = src[:a] + repl.encode() + src[b:]
         open(os.path.join(d, rel), "wb").write(new)
         try:
@@ -45,7 +68,8 @@ def one(m):
             if rc != 0:
                 return mid, "nobuild", ""
             rc, o = run(["go", "vet", "-vettool=/bin/true", "./..."], d, 5) if False else (0, "")
-            rc, o = run(["go", "test", "-vet=off", "-count=1", ".", "./copy"], d, 180)
+            # the mutated code runs as root: jailed (read-only root, private /tmp)
+            rc, o = run([os.path.join(VERIF, "tools", "jail.sh"), d, "go", "test", "-vet=off", "-count=1", ".", "./copy"], d, 180)
             if rc != 0:
                 return mid, "killed-by-tests", ""
             rc, o = run([os.path.join(VERIF, "bin", "fsverif"), "-property", "all", "-child", "-config", "linux/amd64", "-repo", d], d, 300)
